@@ -1,7 +1,7 @@
 """Side-car contracts, one module per property.  registry() -> {unit name: Unit}."""
 import importlib
 
-MODULES = ['core', 'C04', 'dist', 'C17', 'C16', 'C19', 'C15', 'C05', 'C08', 'C13', 'C01', 'C14', 'C06', 'C07', 'C12', 'C20', 'C02mvn', 'C11tri', 'C01solve', 'C13ar', 'C15b', 'C11rec', 'C11m', 'C15c', 'C04b', 'C01m', 'C08w', 'C06b', 'C06c', 'misc2']
+MODULES = ['core', 'C04', 'dist', 'C17', 'C16', 'C19', 'C15', 'C05', 'C08', 'C13', 'C01', 'C14', 'C06', 'C07', 'C12', 'C20', 'C02mvn', 'C11tri', 'C01solve', 'C13ar', 'C15b', 'C11rec', 'C11m', 'C15c', 'C04b', 'C01m', 'C08w', 'C06b', 'C06c', 'misc2', 'C07b']
 _reg = None
 
 
